@@ -127,6 +127,8 @@ class FreshTwin:
     themselves run in a forked child of a runner that never executes repository code).  It waits for a job, runs
     blind(other image) and then blind(image), and sends back the catalogue key and the tables."""
 
+    _parent_fds = []       # parent-side pipe ends of every live twin: a later twin must not inherit them open
+
     def __init__(self):
         import pickle
         self.pickle = pickle
@@ -135,16 +137,26 @@ class FreshTwin:
         self.pid = os.fork()
         if self.pid == 0:
             try:
+                for fd in FreshTwin._parent_fds:
+                    try:
+                        os.close(fd)
+                    except OSError:
+                        pass
                 os.close(jw)
                 os.close(rr)
                 with os.fdopen(jr, "rb") as f:
                     data = f.read()
                 if not data:
                     os._exit(0)
-                gpath, gspec, go, path, spec, o = pickle.loads(data)
+                job = pickle.loads(data)
                 try:
-                    _blind(gpath, gspec, go)
-                    _, B = _blind(path, spec, o)
+                    if job[0] == "prior-file":
+                        _, path, spec, catfile, p = job
+                        _, B = _prior(path, spec, catfile, p)
+                    else:
+                        gpath, gspec, go, path, spec, o = job
+                        _blind(gpath, gspec, go)
+                        _, B = _blind(path, spec, o)
                     payload = pickle.dumps(("ok", fm.catalogue_key(B), fm.table_text(B, "c") if B else ""))
                 except BaseException as e:      # noqa: BLE001
                     payload = pickle.dumps(("exc", "%s: %s (at %s)" % (type(e).__name__, str(e)[:160], _where(e)), None))
@@ -155,6 +167,7 @@ class FreshTwin:
         os.close(jr)
         os.close(rw)
         self.jw, self.rr = jw, rr
+        FreshTwin._parent_fds += [jw, rr]
 
     def run(self, *job):
         with os.fdopen(self.jw, "wb") as f:
@@ -203,14 +216,52 @@ def case(ch):
     variant = ("fresh-finder", "same-finder", "after-other-image", "other-image-first-in-fresh-process")[
         ch.weighted("rerun_variant", [2, 2, 3, 3])]
     twin = FreshTwin() if variant == "other-image-first-in-fresh-process" else None
+    # priorized fit with the catalogue given as a FILE whose path has been used before in this process
+    twin2 = FreshTwin() if ch.chance("prior_from_file", 1, 6) else None
     try:
-        return _case_body(ch, out, models, spec, path, o, variant, twin)
+        return _case_body(ch, out, models, spec, path, o, variant, twin, twin2)
     finally:
-        if twin is not None:
-            twin.discard()
+        for t in (twin, twin2):
+            if t is not None:
+                t.discard()
 
 
-def _case_body(ch, out, models, spec, path, o, variant, twin):
+def _prior_from_file(ch, out, models, spec, path, comps, o, twin2, history):
+    """The input catalogue of a priorized fit is given as a file.  In a fresh process (twin) the file is loaded once;
+    in this process the same path first held ANOTHER catalogue (a subset) that was loaded by an earlier priorized fit.
+    Same image, same file content at the time of the call: the results must be identical."""
+    catalogs = fm._state["catalogs"]
+    base = os.path.join(fm.tmpdir(), "prior_input.csv")
+    catfile = os.path.join(fm.tmpdir(), "prior_input_comp.csv")
+    p = {"stage": 1 + ch.draw("pf_stage", 3), "regroup": True, "docov": o["docov"], "ratio": None}
+    subset = [s for i, s in enumerate(comps) if i % 2 == 0] or list(comps)
+    history.append("priorized-from-file(stage=%d, path used before for %d of %d rows)" % (p["stage"], len(subset), len(comps)))
+    out.stats["probe:priorized_from_file"] += 1
+    catalogs.save_catalog(base, list(subset))
+    if _try(out, "priorized fit from a catalogue file (first content of the path)", _prior, path, spec, catfile, p) is None:
+        return False
+    catalogs.save_catalog(base, list(comps))
+    r = _try(out, "priorized fit from a catalogue file (path rewritten)", _prior, path, spec, catfile, p)
+    out.stats["runs"] += 3
+    if r is None:
+        return False
+    _, P2 = r
+    tag, key1, _table1 = twin2.run("prior-file", path, spec, catfile, p)
+    if tag == "exc":
+        out.violation("aborted", "priorized fit from a catalogue file in a fresh process raised %s" % key1, sig="fresh-twin", op="priorized")
+        return False
+    out.stats["oracle:rerun_identical"] += 1
+    k2 = fm.catalogue_key(P2)
+    if k2 != key1:
+        n = sum(1 for x, y in zip(k2, key1) if x != y) + abs(len(k2) - len(key1))
+        out.violation("rerun-differs", "priorized fit with the catalogue read from a file: a process that had loaded another "
+                      "catalogue from the same path before returns %d rows, a fresh process %d rows, %d differ"
+                      % (len(k2), len(key1), n), sig="catalogue-file-path-reused", op="priorized")
+        return False
+    return True
+
+
+def _case_body(ch, out, models, spec, path, o, variant, twin, twin2=None):
     history = ["blind"]
     out.sample = {"image": {k: spec[k] for k in ("layout", "rows", "cols", "crval", "pix_arcsec", "beam_pix", "noise")},
                   "nsources_injected": len(spec["sources"]), "options": dict(o), "history": history}
@@ -284,6 +335,10 @@ def _case_body(ch, out, models, spec, path, o, variant, twin):
             return out
         _, A2 = r
         if not _same(out, "blind find repeated (%s)" % history[-1], A, A2, variant, table_a=tableA):
+            return out
+
+    if twin2 is not None and comps:
+        if not _prior_from_file(ch, out, models, spec, path, comps, o, twin2, history):
             return out
 
     # ---- priorized fit of the blind catalogue
